@@ -77,7 +77,8 @@ theorem lanczosStep_checked_ok {k : Nat} {cols : List (List Nat)} (hM : MatOK k 
     {st : LState} {hist : List (List Nat)} {Ss : List Nat} (hInv : LInv k cols Y0 st hist Ss)
     (h3 : ∀ next0, Direction k cols st next0 → ∀ j, j < st.ws.length →
       ¬ Projected st.ws st.masks st.ws.length j → Q k cols (hist.getD j []) next0 = 0) :
-    (∃ st', lanczosStep true (qsOptimize k cols) ay st = .finished st') ∨
+    (∃ st', lanczosStep true (qsOptimize k cols) ay st = .finished st' ∧ st'.y = st.y ∧
+      ∀ w ∈ st'.ws, w.isEmpty = false → ∃ j : Nat, st.ws[j]? = some w) ∨
     (∃ st' mk w, lanczosStep true (qsOptimize k cols) ay st = .continue st' mk ∧
       LInv k cols Y0 st' (hist ++ [w]) (Ss ++ [mk])) := by
   have h := hInv.wf
@@ -121,7 +122,11 @@ theorem lanczosStep_checked_ok {k : Nat} {cols : List (List Nat)} (hM : MatOK k 
   obtain ⟨rk, mk, hr, hS⟩ := hsel
   by_cases hrk : rk = 0
   · left
-    refine ⟨LState.mk vs' ws' st.invgs st.masks st.y, ?_⟩
+    refine ⟨LState.mk vs' ws' st.invgs st.masks st.y, ?_, rfl, ?_⟩
+    rotate_left
+    · intro w hw hne
+      obtain ⟨j, hj⟩ := List.getElem?_of_mem hw
+      exact ⟨j, hsub j w hj hne⟩
     unfold lanczosStep
     rw [if_neg (by rw [h.lenV]; exact fun hh => hh rfl), hwl, hpv]
     simp only [h.lenV, hn0, if_neg (show ¬ pv.length < nx.length by rw [hpvOK.1, hn0OK.1]; omega), hav, hfold, hbv,
